@@ -207,7 +207,13 @@ def check_scan_and_listeners(ctx, prog):
     else:
         cl = q.counted_loop(wi, fill[0])
         lens = set(pe(w) for w in fn_exprs(wi) if w.get('k') == 'call' and (w.get('pq') or '').endswith('::length') and strip_lv(w.get('obj') or {}).get('f') == 'set')
-        if cl is None or not isinstance(cl['step'], int) or len(lens) != 1:
+        if (cl is None or not isinstance(cl['step'], int)) and len(lens) == 1 and fill[0].get('c') is not None:
+            # not in counting normal form (the index is stepped inside the body): the bound must still be the set length alone
+            cx = q.expand(wi, fill[0]['c'])
+            calls_ = set(pe(w) for w in walk_expr(cx) if w.get('k') == 'call')
+            ctx.check(calls_ == lens, 'C14.scan', wi['pq'], role, fwhere(wi, fill[0]['l']), 'the collecting loop is bounded by set.length() only',
+                      'the loop that collects the readable sockets is bounded by `%s`, not by the number of sockets in the set' % pe(fill[0]['c']))
+        elif cl is None or not isinstance(cl['step'], int) or len(lens) != 1:
             ctx.undecided('C14.scan', wi['pq'], role, fwhere(wi, fill[0]['l']), 'collecting loop is not a recognised counting loop over the set')
         else:
             lt = list(lens)[0]
@@ -215,11 +221,14 @@ def check_scan_and_listeners(ctx, prog):
             try:
                 by_id, _bt = bounded.atoms_of(prog, wi, cl['cond'], allow_assigned=(cl['var'],))
                 others = [i for i in by_id if i != cl['var']]
+                other_texts = [t for t in _bt if t != lt]
                 for L in range(1, 5):
                     for r in range(1, L + 1):
-                        init = bounded.Bound(prog, wi, dict((o, r) for o in others), {lt: L}).ev(cl['init'])
+                        texts = dict((t, r) for t in other_texts)
+                        texts[lt] = L
+                        init = bounded.Bound(prog, wi, dict((o, r) for o in others), texts).ev(cl['init'])
                         trips = 0
-                        while trips <= 16 and bounded.Bound(prog, wi, dict([(cl['var'], init + trips * cl['step'])] + [(o, r) for o in others]), {lt: L}).ev(cl['cond']):
+                        while trips <= 16 and bounded.Bound(prog, wi, dict([(cl['var'], init + trips * cl['step'])] + [(o, r) for o in others]), texts).ev(cl['cond']):
                             trips += 1
                         ctx.evaluations += 1
                         if trips != L and bad is None:
